@@ -105,6 +105,14 @@ def check_frame(out, rng, fr, sess, pending):
   thr = rng.choice([0.0, 0.0, float(np.round(loc[-1], 1)), 10.0, -5.0])
   rs = rng.choice([1.0, 1.0, 0.5, -2.0])
   sm = m.summary(level=level, threshold=thr, tails=tails, report='all', rescale=rs)
+  # the 'last' report mode is the last row of the 'all' report
+  sml = m.summary(level=level, threshold=thr, tails=tails, report='last', rescale=rs)
+  cols = ['estimate', 'precision', 'lower', 'upper', 'scale', 'probability']
+  a_last, b_last = [float(sm[c].iloc[-1]) for c in cols], [float(sml[c].iloc[0]) for c in cols]
+  if len(sml) != 1 or any(not (x == y or (math.isnan(x) and math.isnan(y))) for x, y in zip(a_last, b_last)):
+    out.oracle_violation(dict(facts, call='TBR.summary', symptom='report-modes'), dict(case, level=level, tails=tails, thr=thr, rescale=rs),
+                         f"summary(report='last') {b_last} is not the last row of summary(report='all') {a_last}")
+    return
   rl, rsc, _ = en.real_posterior(m, rs)
   alpha = (1 - level) / tails
   sfacts = dict(facts, call='TBR.summary', tails=tails, level=level, rescale=rs)
